@@ -225,12 +225,16 @@ def run_traced(job, opt=None):
     orig_init = OptimizationAbstract._init_agent
     orig_step = cls.optimization_step
 
+    import functools
+
+    @functools.wraps(orig_init)
     def init_wrapper(self, position=None):
         a = orig_init(self, position)
         if self is opt:
             inits.append({"raw": _enc_raw(position), "agent": _enc_agent(a)})
         return a
 
+    @functools.wraps(orig_step)
     def step_wrapper(self):
         r = orig_step(self)
         if self is opt:
